@@ -49,6 +49,17 @@ class Schedule:
         self.split = bool(spec.get("split"))             # remote transports: split frames into segments
         self.used: Dict[str, float] = {}
 
+    def max_delay(self) -> float:
+        """Upper bound of a single delay this schedule can produce."""
+        m = max(self.overrides.values(), default=0.0)
+        if self.choices is not None:
+            return max(m, max(self.choices, default=0.0) * self.unit)
+        top = {"sync": 0, "zero": 0, "explicit": 0, "uniform": 5, "ties": 2, "per_sim": 15, "heavy": 50,
+               "slowlink": 250, "slow_req": 10}.get(self.profile)
+        if top is None:
+            return float("inf")          # (starved: deliberately enormous delays)
+        return max(m, top * self.unit)
+
     def spec(self) -> Dict[str, Any]:
         d = {"profile": self.profile, "seed": self.seed, "unit": self.unit}
         if self.overrides:
@@ -136,6 +147,8 @@ class Run:
         self.all_nodes: List[Any] = []
 
     def rec(self, *r) -> int:
+        if self.loop is not None:
+            self.loop.last_event_vtime = self.loop.time()
         return self.hist.add(self.loop.time() if self.loop is not None else 0.0, *r)
 
     def probe(self, name, n=1):
